@@ -51,7 +51,7 @@ MANIFEST = {
                  "library contract) + differential correspondence model vs implementation per backend, glue model vs OpenSSL class, "
                  "contract probes on the real library + exhaustive toy-curve enumeration (test)",
 }
-RULE = ("ops ec_add/ec_sub/ec_neg/ec_assoc/ec_mul/ec_mulr (P*k)/ec_rgenmul (k*G)/ec_rawmul/ec_blindmul/ec_genmul/ec_invmod(c)/ec_points_for_x/ec_on_curve/ec_sqrt/"
+RULE = ("ops (optionally after calls the generator object refuses: failed_then) ec_add/ec_sub/ec_neg/ec_assoc/ec_mul/ec_mulr (P*k)/ec_rgenmul (k*G)/ec_rawmul/ec_blindmul/ec_genmul/ec_invmod(c)/ec_points_for_x/ec_on_curve/ec_sqrt/"
         "ec_shared on secp256k1, secp256r1 (both configurations), BLS12-381 (pure only), and toy curves built through pycoin's Generator; "
         "ec_ossl_mul/rawmul/inv/add/blindmul/shared: the glue model of native/openssl.py against the OpenSSL class (e in {0, ±1, n-1, n, n+1, "
         "2n, 2^256-1, -n}, P in {infinity, G, x = 0 on secp256r1, unreduced, off-curve}); ossl_probe: the library contract on the real libcrypto; "
@@ -96,6 +96,8 @@ def impl(op: str) -> str:
 
 def trivial(op: str) -> bool:
     a = op.split(" ")
+    if a[0] == "failed_then":
+        a = a[1:]
     if a[0] in ("ec_add", "ec_sub", "ec_assoc"):
         return "inf" in a[2:]
     if a[0] in ("ec_mul", "ec_mulr"):
@@ -162,6 +164,8 @@ def _in_quantifier(tok, *pts) -> bool:
 def oracle(op: str, out: str):
     """the property evaluated on the implementation alone; an auxiliary implementation call that raises where the property
     says it cannot (sum of two curve points, multiple of a curve point) makes the answer unparsable and is reported"""
+    if op.startswith("failed_then "):
+        op = op.split(" ", 1)[1]
     try:
         return _oracle(op, out)
     except (ValueError, IndexError, TypeError) as e:
@@ -471,6 +475,8 @@ def _bls_in_subgroup(P) -> bool:
 # ------------------------------------------------------------------ neighbours
 
 def neighbours(op: str, rng):
+    if op.startswith("failed_then "):
+        return []
     a = op.split(" ")
     res = []
     if a[0] in ("ec_add", "ec_sub") and "inf" not in a[2:]:
@@ -745,6 +751,41 @@ def gen(ctx, emit):
         for x in (range(p) if p < 64 else [rng.randrange(p) for _ in range(40)]):
             emit("ec_points_for_x %s %d" % (tok, x))
         emit("ec_gen_init %s %d" % (tok, rng.randrange(2 ** 256)))
+    # ---------------- one curve, EVERY base point: generators that share (p, a, b, n) and differ in the base point only (a table
+    # of doublings or any other per-curve memo shared between instances answers with multiples of the first base point); on the
+    # production parameters too: secp256k1 with base 2G / 3G next to the shipped generator
+    fam = [c for c in toy_small if cc.toy_params(c)[0] in (7, 11, 19)][:ctx.n(4, 40)]
+    for tok0 in fam:
+        p, ca, cb, _gx, _gy, n = consts(tok0)
+        for (bx, by) in cc.curve_points(p, ca, cb):
+            tok = "toy:%d:%d:%d:%d:%d:%d" % (p, ca, cb, bx, by, n)
+            for e in list(range(-1, min(n, 6) + 1)) + [n - 1, n, n + 1, rng.randrange(2 ** 256)]:
+                emit("ec_rawmul %s %d" % (tok, e), "same-curve-other-base")
+                emit("ec_genmul %s %d" % (tok, e), "same-curve-other-base")
+            emit("ec_blindmul %s %d %d" % (tok, rng.randrange(1, n), rng.randrange(2 ** 256)), "same-curve-other-base")
+    for name in BIG:
+        p, ca, cb, gx, gy, n = consts(name)
+        emit("ec_genmul %s/pure 5" % name, "same-curve-other-base")
+        for kk in (2, 3):
+            B = _pt_of(name, kk)
+            tok = "toy:%d:%d:%d:%d:%d:%d" % (p, ca, cb, B[0], B[1], n)
+            for e in (1, 2, 3, n - 1, rng.randrange(1, n)):
+                emit("ec_rawmul %s %d" % (tok, e), "same-curve-other-base")
+                emit("ec_genmul %s %d" % (tok, e), "same-curve-other-base")
+    # ---------------- a refused call first (scalar None / a string / a float), then the operation on the SAME generator object
+    for name in BIG + ("bls12_381",):
+        n = consts(name)[5]
+        for cfg in (("pure", "openssl") if name in BIG else ("pure",)):
+            for e in (1, 2, n - 1, rng.randrange(1, n), rng.randrange(2 ** 256)):
+                emit("failed_then ec_genmul %s/%s %d" % (name, cfg, e), "after-refused-call")
+                emit("failed_then ec_rgenmul %s/%s %d" % (name, cfg, e), "after-refused-call")
+            emit("failed_then ec_blindmul %s/%s %d %d" % (name, cfg, rng.randrange(1, n), rng.randrange(2 ** 256)), "after-refused-call")
+            emit("failed_then ec_rawmul %s/%s %d" % (name, cfg, rng.randrange(1, n)), "after-refused-call")
+    for tok in rng.sample(toy_small, 6):
+        n = consts(tok)[5]
+        for e in range(0, min(n, 8)):
+            emit("failed_then ec_genmul %s %d" % (tok, e), "after-refused-call")
+        emit("failed_then ec_blindmul %s %d %d" % (tok, rng.randrange(1, n), rng.randrange(2 ** 256)), "after-refused-call")
     # ---------------- documentation stream (outside the quantifier; never judged by the oracle): curves of even order
     # (a point with y = 0), an order-less curve cannot be expressed through Generator; negative scalars there are an
     # AssertionError in Curve.multiply and are compared model-vs-implementation only in the model's own tests
